@@ -20,9 +20,36 @@ NOT_APPLICABLE = {
 
 # claimed by DESIGN.md but whose check is not built yet (kept out of `checks` until it runs clean end to end)
 PENDING = {p: "in scope for deterministic simulation (DESIGN.md §5) but the check is not built yet in this revision; not claimed"
-           for p in ["C07", "C09", "C10", "C11", "C12", "C13", "C14", "C17", "C19"]}
+           for p in ["C07", "C11", "C12", "C13", "C14", "C17", "C19"]}
 
 PROPS = {
+    "C09": {
+        "level": "exploration",
+        "level_text": "seeded exploration of writer/consumer pacing with stall, abandon and fake-time advance faults: no-wait for lossy subscribers, validity of the lossy stream as an edit script of the consumer's own view, convergence after draining, and the bounded failure of backpressured Value writes decided exactly on the fake clock",
+        "level_note": TRUST + "; the 5 s bound is taken from the property statement, not from the code; the merge table of mergeCollectionExcess is never consulted by the oracle",
+        "technique": "deterministic simulation with fault injection (stall, abandon, fake-time advance) + edit-script validity / convergence / bounded-liveness oracles",
+        "rule": RULE_SCHED,
+        "scenarios": [
+            {"name": "lossy-nowait", "quick": 30000, "thorough": 3000000, "thorough_time": 120},
+            {"name": "lossy-paced", "quick": 30000, "thorough": 3000000, "thorough_time": 150},
+            {"name": "bp-timeout", "quick": 30000, "thorough": 3000000, "thorough_time": 120},
+        ],
+        "require_hits": ["stall", "abandon", "advance", "cancel"],
+        "assumptions": ["subscriptions are opened before the writers start (subscribe/commit races are C03's subject)"],
+    },
+    "C10": {
+        "level": "fault_enumeration",
+        "level_text": "cancellation and abandonment injected by scheduler-placed canceller tasks at every reachable step of Send/Listen/forwarding (random placement over many runs), at bus level and at resource level; exactly-once / order / no-stall / closed-after-cancel / no-leak oracles; quiescence and leaks decided by synctest, not by sleeping",
+        "level_note": TRUST + "; a goroutine still blocked at the end of the bubble with a sc-golang frame on its stack is a leak; panics on internal goroutines kill the worker and are attributed to the run by the driver",
+        "technique": "deterministic simulation with fault injection (cancel / abandon at scheduler-chosen points) + exactly-once, ordering, closure and goroutine-leak oracles at synctest quiescence",
+        "rule": RULE_SCHED,
+        "scenarios": [
+            {"name": "shut-bus", "quick": 40000, "thorough": 3000000, "thorough_time": 200},
+            {"name": "shut-res", "quick": 40000, "thorough": 3000000, "thorough_time": 250},
+        ],
+        "require_hits": ["cancel", "abandon", "bus.collect", "bus.listen.register", "bus.send.each"],
+        "assumptions": ["listener.stop runs on an internal goroutine and is never delayed relative to other internal goroutines"],
+    },
     "C04": {
         "level": "exploration",
         "level_text": "seeded exploration of single-writer histories (successful and failing writes, write times, clock jumps) against 1-3 backpressured consumers whose pace is decided by the scheduler; every received stream compared event by event with the edit script derived from the reference model",
